@@ -258,6 +258,8 @@ impl HostRuntime {
         final(self).wf(),
         // [CLOSEW-RESULT] a closed (or never issued) non-standard handle reports an error
         !(handle.0 == 0 || handle.0 == 1 || old(self).writers@.contains_key(handle)) ==> r is Err,
+        // [CLOSEW-STD] the standard streams are never closed: the request succeeds and changes nothing
+        (handle.0 == 0 || handle.0 == 1) ==> r is Ok && final(self).writers@ == old(self).writers@,
         // [CLOSEW-CLOSED-KIND] closing a closed handle reports the "closed" category (an open one may report what flush reports)
         !(handle.0 == 0 || handle.0 == 1 || old(self).writers@.contains_key(handle)) ==> r is Err && io::kind_of(r->Err_0) is NotConnected,
         // [CLOSEW-EXACT]
